@@ -54,6 +54,7 @@ type Finding struct {
 	OrderA      []uint64 `json:"order_a,omitempty"`
 	OrderB      []uint64 `json:"order_b,omitempty"`
 	OrderBase   uint64   `json:"order_base_seed,omitempty"`
+	Instr       bool     `json:"instrumented_build"` // found with the statement-level instrumented build
 	SliceFrom   uint64   `json:"slice_from"`
 	SliceStride uint64   `json:"slice_stride"`
 	Path        string   `json:"-"`
@@ -258,7 +259,7 @@ func cmdWorker(args []string) int {
 		fo := sim.SafeRun(c, sim.ReplayTapes(small), sim.RunOpt{Race: sim.RaceEnabled, Sample: true})
 		wd2.Stop()
 		f := Finding{Property: *prop, Class: v.Class, Key: v.Key, Detail: v.Detail, Seed: pf.seed, RunIndex: pf.idx, Race: sim.RaceEnabled, Tapes: small, Shrink: st,
-			SliceFrom: *from, SliceStride: *stride}
+			SliceFrom: *from, SliceStride: *stride, Instr: sim.Instrumented}
 		for _, fv := range fo.Violations {
 			if fv.ID() == id {
 				f.Detail, f.Expected, f.Observed = fv.Detail, fv.Expected, fv.Observed
@@ -333,6 +334,22 @@ func cmdReplay(args []string) int {
 		fmt.Fprintln(os.Stderr, "unknown property", f.Property)
 		return 2
 	}
+	if f.Instr != sim.Instrumented {
+		// re-execute with the build variant the finding was made with
+		name := "simcheck"
+		if f.Instr {
+			name = "simcheck-i"
+		}
+		cmd := exec.Command(filepath.Join(verifDir, ".build", name), append([]string{"replay"}, args...)...)
+		cmd.Stdout, cmd.Stderr = os.Stdout, os.Stderr
+		if err := cmd.Run(); err != nil {
+			if ee, ok := err.(*exec.ExitError); ok {
+				return ee.ExitCode()
+			}
+			return 2
+		}
+		return 0
+	}
 	if len(f.OrderA) > 0 {
 		return replayOrder(&f, *quiet)
 	}
@@ -341,7 +358,8 @@ func cmdReplay(args []string) int {
 	}
 	if f.Race && !sim.RaceEnabled {
 		// race-class findings need the race binary
-		bin := filepath.Join(verifDir, ".build", "simcheck-race")
+		self, _ := os.Executable()
+		bin := self + "-race"
 		cmd := exec.Command(bin, append([]string{"replay"}, args...)...)
 		cmd.Env = raceEnv(os.Environ(), filepath.Join(verifDir, ".build", "racelog", "replay"))
 		cmd.Stdout, cmd.Stderr = os.Stdout, os.Stderr
@@ -660,7 +678,7 @@ func cmdRun(args []string) int {
 	}
 	start := time.Now()
 	self, _ := os.Executable()
-	raceBin := filepath.Join(filepath.Dir(self), "simcheck-race")
+	raceBin := self + "-race"
 	os.RemoveAll(filepath.Join(verifDir, ".build", "racelog"))
 
 	// worker allocation: quick = all plain workers, then all race workers (sequential
@@ -850,12 +868,29 @@ func cmdRun(args []string) int {
 		}
 		f := Finding{Property: *prop, Class: "run_order_dependence", Key: "results depend on earlier runs in the process", RunIndex: i, Seed: sim.MixSeed(baseSeed, *prop, i),
 			Detail: fmt.Sprintf("run %d yields different observable results depending on which runs the process executed before it: the engine keeps state outside the template set / compiled template", i),
-			OrderA: a, OrderB: b, OrderBase: baseSeed}
+			OrderA: a, OrderB: b, OrderBase: baseSeed, Instr: sim.Instrumented}
 		f.Path = filepath.Join(verifDir, "replays", fmt.Sprintf("%s-run_order_dependence-%d.json", *prop, i))
 		bb, _ := json.MarshalIndent(f, "", " ")
 		os.WriteFile(f.Path, bb, 0o644)
 		findings = append(findings, f)
 		break // one is enough: they share the cause
+	}
+	if sim.Instrumented && strings.Contains(harness, "WATCHDOG") && os.Getenv("VERIF_NO_FALLBACK") == "" {
+		// A task blocked behind the scheduler's back (a parked task holds something the
+		// instrumenter could not announce). Statement-level pre-emption is an extra; rather
+		// than failing the check, repeat it with the seam-level scheduler only.
+		fmt.Println("NOTE: a run hung under statement-level pre-emption; repeating the check with seam-level scheduling only")
+		plain := strings.TrimSuffix(self, "-i")
+		cmd := exec.Command(plain, append([]string{"run"}, args...)...)
+		cmd.Env = append(os.Environ(), "VERIF_NO_FALLBACK=1")
+		cmd.Stdout, cmd.Stderr = os.Stdout, os.Stderr
+		if err := cmd.Run(); err != nil {
+			if ee, ok := err.(*exec.ExitError); ok {
+				return ee.ExitCode()
+			}
+			return 2
+		}
+		return 0
 	}
 	wall := time.Since(start).Seconds()
 
